@@ -204,7 +204,7 @@ theorem sh_roundtrip_backslash_splice (args : List Str) (h : NoNul args) :
     shAccepts (args2shWith allSafe [sq, bsl, sq, sq] args) args = true :=
   sh_roundtrip_with allSafe allSafe_literal _ [.esc sq] (by decide +kernel) args h
 
-example : args2shWith allSafe [sq, bsl, sq, sq] ["it's".toList, "x".toList] = "'it'\\''s' x".toList := by
+example : args2shWith (fun _ => false) [sq, bsl, sq, sq] ["it's".toList, "x".toList] = "'it'\\''s' 'x'".toList := by
   decide +kernel
 
 /-- `args2cmd` with ANY "wrap in double quotes" predicate that is true at least for empty arguments and
